@@ -282,6 +282,9 @@ macro_rules! family {
     };
 }
 
+// the dyn-dispatch layer is reused for the colour types of `c13_panic.rs` (conversions that panic at a chosen element)
+pub(crate) use {family, impl_guard, impl_tgt_start};
+
 type SrgbS = encoding::Srgb;
 
 // (Hsl/Hsv/Hwb<Srgb> convert from and to Rgb<Srgb> only, so linear RGB lives in the families without them)
@@ -678,6 +681,8 @@ pub fn run(tier: &str, seed: u64, dir: &str) {
     run_family(&mut out, &mut rng, &f32x4::fam(), nr, max_len, max_ops, max_chain, true);
     run_family(&mut out, &mut rng, &f64x4::fam(), nr, max_len, max_ops, max_chain, true);
     run_family(&mut out, &mut rng, &f32x3b::fam(), nr, max_len, max_ops, max_chain, true);
+    // histories in which a conversion (or the user's code) panics under `catch_unwind`: `c13_panic.rs`, model `InPlacePanic.lean`
+    crate::c13_panic::run_panics(&mut out, &mut rng, tier);
     if thorough {
         // long buffers (the read/write loop of the in-place map over many elements), every form, two families
         let fam = f32x3::fam();
